@@ -228,11 +228,11 @@ end Schem
 namespace Schem
 open Place Pins
 
-/-- C18-scope-pin-below-box: when a Scope with ≥ 4 inputs is the tallest symbol of its row, replaceAsColRow puts the next row
-    exactly where the sink pin of a pass-through marker of the same column meets the Scope's fourth pin -/
-theorem scope4_meets_marker (s m : Shape) (hs : s.cls = .scope) (h4 : 4 ≤ s.ins.length) (hm : m.cls = .pass) (x y : Int) :
-    ∃ d e, s.sinkPos 3 = some d ∧ m.sinkPos 0 = some e ∧ (x + d.1, y + d.2) = (x + e.1, (y + s.height + Cfg.std.mv) + e.2) := by
-  obtain ⟨h1, h2, _⟩ := scope4_outside s hs h4
+/-- HISTORY, C18-scope-pin-below-box (tree before /repo 0891c9c): when a Scope with ≥ 4 inputs was the tallest symbol of its row,
+    replaceAsColRow put the next row exactly where the sink pin of a pass-through marker of the same column met the Scope's fourth pin -/
+theorem scope4_meets_marker_old (s m : Shape) (hs : s.cls = .scope) (h4 : 4 ≤ s.ins.length) (hm : m.cls = .pass) (x y : Int) :
+    ∃ d e, s.sinkPos 3 = some d ∧ m.sinkPos 0 = some e ∧ (x + d.1, y + d.2) = (x + e.1, (y + s.oldHeight + Cfg.std.mv) + e.2) := by
+  obtain ⟨h1, h2, _⟩ := scope4_outside_old s hs h4
   refine ⟨(0, 105), (0, 10), h1, ?_, ?_⟩
   · obtain ⟨cls, iw, ins, outs⟩ := m
     simp only at hm
